@@ -72,6 +72,7 @@ static void parser_case(Decoded &d, Src &s, bool keep_log, FILE *out) {
     bool prev_rejected = !used.inited_ok;
     if (out) { fprintf(out, "  previous use: "); for (auto &l : used.log) fprintf(out, "%s; ", l.c_str()); fprintf(out, "\n"); }
     used.log.clear();
+    used.last_string.clear();  // harness-side memory of strings read so far: both twins start the next use without any
 
     // ---- the fresh twin
     Run fresh;
@@ -104,19 +105,21 @@ static void parser_case(Decoded &d, Src &s, bool keep_log, FILE *out) {
     size_t at = s.i;
     Src s1(s.p, s.n), s2(s.p, s.n);
     s1.i = s2.i = at;
+    bool restart_ok = true;
     if (restart == 0) {
         used.call(arr ? A_INIT_ARR : A_INIT_OBJ, s1);
         fresh.call(arr ? A_INIT_ARR : A_INIT_OBJ, s2);
     } else {
-        // the fresh twin needs an init to get its buffer; reset/verify are then applied to both
-        bool q = fresh.record;
-        fresh.record = false;
+        // reset / successful verify must leave the object exactly as a fresh init on the same bytes does:
+        // the twin is only initialised; the restart call itself is not part of the compared trace
+        used.record = fresh.record = false;
         fresh.call(arr ? A_INIT_ARR : A_INIT_OBJ, s2);
-        fresh.record = q;
         used.call(restart == 1 ? A_RESET : A_VERIFY, s1);
-        fresh.call(restart == 1 ? A_RESET : A_VERIFY, s2);
+        used.record = fresh.record = true;
+        restart_ok = used.shadow_valid && used.inited_ok;  // reset returned true / verify returned true
+        if (fresh.inited_ok != used.inited_ok) restart_ok = false;
     }
-    bool clean = used.inited_ok && used.pb.p->error_flags == BINSON_ERROR_NONE && fresh.inited_ok && fresh.pb.p->error_flags == BINSON_ERROR_NONE;
+    bool clean = restart_ok && used.inited_ok && used.pb.p->error_flags == BINSON_ERROR_NONE && fresh.inited_ok && fresh.pb.p->error_flags == BINSON_ERROR_NONE;
     if (used.trace != fresh.trace) clean = true;  // differing already at the restart call: report below
     if (clean) {
         bool smart2 = s1.flag();
